@@ -99,6 +99,7 @@ extern const Elem *F_END;
 #endif
 /* ---- meters --------------------------------------------------------------------------------- */
 extern unsigned long alloc_calls, dealloc_calls, gen_calls;
+extern int GEN_BASE;                  /* the generator's k-th call yields the abstract value GEN_BASE + k */
 extern unsigned int  used_kinds;
 #define K_DEFAULT 1u
 #define K_COPY 2u
